@@ -7,7 +7,7 @@ _UnconditionalPlanar.get_act_scale, flows._affine_with_min_scale's reparameteris
 import z3
 
 from fjvc.core import family
-from fjvc.interp import Obj, obj_class, PyRaise, Untranslatable
+from fjvc.interp import Obj, obj_class, obj_fields, PyRaise, Untranslatable
 from fjvc.lib import TypeMarker
 from fjvc.values import SV, SumT, UF, lift, to_real, R, I
 
@@ -342,3 +342,122 @@ def spline_derivatives(ctx):
     xp, yp = o.x_pos, o.y_pos
     same = isinstance(xp, LambdaW) and isinstance(yp, LambdaW) and xp.args == yp.args and xp.args[0][0] == "zeros"
     ctx.oblige("C11/RationalQuadraticSpline.__init__/struct/x_pos_equals_y_pos_at_initialisation", bool(same), [], props, kind="struct", fn=q + ".__init__", note="both are _real_to_increasing_on_interval of zeros(knots) with the same interval")
+
+
+# --------------------------------------------------------------------------------------
+@family("params11/_affine_with_min_scale", ["C11", "C12"])
+def affine_with_min_scale(ctx):
+    """flows._affine_with_min_scale: the default transformer of coupling / masked autoregressive flows.  Its scale is
+    softplus(raw) + min_scale, so it stays >= min_scale > 0 for every raw value, starts at 1, and the offset is frozen."""
+    it = ctx.interp
+    env11(it)
+    from .wrappers import install as winstall
+    winstall(it)
+    env11(it)
+    props = ["C11", "C12"]
+    Q = "flowjax.flows._affine_with_min_scale"
+    fn = it.repo_function(Q)
+    W = "flowjax.wrappers"
+    BR = it.repo_class(f"{W}.BijectionReparam")
+    NonT = it.repo_class(f"{W}.NonTrainable")
+    unwrap = it.repo_function(f"{W}.unwrap")
+    ms = SV(z3.Real("min_scale"))
+    state = {}
+    it.lib.overrides["jax.numpy.isfinite"] = lambda v: SV(z3.BoolVal(True), True) if not (isinstance(v, SV) and it.side[state.get("start", 0):]) else SV(defined_and(it.side, state.get("start", 0)), True)
+    it.lib.overrides["jax.numpy.array"] = lambda a, *r, **k: SV(lift(a)) if not isinstance(a, SV) else a
+
+    def tree_at(where, pytree, replace):
+        # record which attribute `where` selects by handing it a probe object
+        sel = where(pytree)
+        hits = [k for k, v in obj_fields(pytree).items() if v is sel]
+        if len(hits) != 1:
+            raise Untranslatable("tree_at: where does not select exactly one field")
+        return Obj(obj_class(pytree), **dict(obj_fields(pytree), **{hits[0]: replace}))
+
+    it.lib.overrides["equinox.tree_at"] = tree_at
+    # T3 (_unwrap_check_and_cast, under contract in shapes/distributions families): the class-creation hook of AbstractBijection
+    # unwraps `self` before every method body runs; the extraction drops that hook, so the vectorised call re-binds the method
+    # to the really unwrapped object
+    from fjvc.interp import BoundMethod
+
+    def vectorize(f, signature=None, excluded=frozenset()):
+        def call(x, c=None):
+            if isinstance(f, BoundMethod):
+                return f.fn(unwrap(f.obj), x, c)
+            return f(x, c)
+
+        return call
+
+    it.lib.overrides["jax.numpy.vectorize"] = vectorize
+
+    # the value handed to BijectionReparam is the constructor argument the object has to reproduce (recorded, not pinned)
+    given = []
+
+    def recording_reparam(arr, bijection, **kw):
+        given.append(arr)
+        return BR(arr, bijection, **kw)
+
+    it.global_overrides["flowjax.flows"] = {"BijectionReparam": recording_reparam}
+
+    def build():
+        state["start"] = len(it.side)
+        del given[:]
+        return fn(ms)
+
+    hyp = [ms.e > 0, ms.e < 1]
+    paths = [p for p in it.explore(build, assume=hyp) if p.outcome == "return"] if "assume" in it.explore.__code__.co_varnames else None
+    if paths is None:
+        def build2():
+            it.assume(z3.And(*hyp))
+            return build()
+        allp = it.explore(build2)
+        paths = [p for p in allp if p.outcome == "return"]
+        ctx.oblige("C11/_affine_with_min_scale/post/never_rejects_a_min_scale_in_(0,1)", len(paths) == len(allp), [], props, kind="struct", fn=Q)
+    ctx.oblige("C11/_affine_with_min_scale/struct/straight_line", len(paths) == 1, [], props, kind="applicability", fn=Q)
+    if len(paths) != 1:
+        return
+    p = paths[0]
+    aff = p.value
+    w = aff.scale
+    okw = isinstance(w, Obj) and obj_class(w) is BR
+    ctx.oblige("C11/_affine_with_min_scale/struct/scale_is_a_reparameterised_leaf", okw, [], props, kind="applicability", fn=Q)
+    if not okw:
+        return
+    rp = dict(kind="c11", what="min_scale", vars={})
+    # (a) the initial scale is 1
+    pu = [q for q in it.explore(lambda: unwrap(aff)) if q.outcome == "return"]
+    ctx.oblige("C11/_affine_with_min_scale/struct/initial_value_recorded", len(given) == 1 and isinstance(given[0], SV), [], props, kind="applicability", fn=Q)
+    if len(pu) == 1 and len(given) == 1 and isinstance(given[0], SV):
+        g0 = to_real(given[0].e)
+        ctx.oblige("C11/_affine_with_min_scale/post/initial_scale_reproduces_the_value_given_to_the_reparameterisation", lift(pu[0].value.scale) == g0, hyp + p.cond + pu[0].cond, props, fn=Q, replay=rp,
+                   rounds=3, extra_terms=[exp(lift(w.arr)), exp(g0 - ms.e), exp(lift(pu[0].value.scale) - ms.e)])
+    elif len(pu) == 1:
+        pass
+    else:
+        ctx.oblige("C11/_affine_with_min_scale/struct/unwraps", False, [], props, kind="applicability", fn=Q)
+    # (b) whatever values training gives the TRAINABLE leaves (every inexact leaf that is not under NonTrainable), the scale stays
+    #     strictly positive.  (If the min_scale offset were left trainable it could be driven negative.)
+    cnt = [0]
+
+    def havoc(x, under):
+        if isinstance(x, Obj):
+            u = under or obj_class(x) is NonT
+            return Obj(obj_class(x), **{k: havoc(v, u) for k, v in obj_fields(x).items()})
+        if isinstance(x, list):
+            return [havoc(v, under) for v in x]
+        if isinstance(x, tuple):
+            return tuple(havoc(v, under) for v in x)
+        if isinstance(x, SV) and not under and x.e.sort() == R:
+            cnt[0] += 1
+            return SV(z3.Real(f"trained_leaf_{cnt[0]}"), x.elem, x.tags)
+        return x
+
+    trained = Obj(obj_class(aff), **dict(obj_fields(aff), scale=havoc(w, False)))
+    ctx.oblige("C11/_affine_with_min_scale/struct/trainable_leaf_found", cnt[0] >= 1, [], props, kind="struct", fn=Q)
+    pt = [q for q in it.explore(lambda: unwrap(trained)) if q.outcome == "return"]
+    if len(pt) == 1:
+        sc = lift(pt[0].value.scale)
+        ctx.oblige("C11/_affine_with_min_scale/post/scale_strictly_positive_for_every_value_of_the_trainable_leaves", sc > 0, hyp + pt[0].cond, props, fn=Q, replay=rp)
+        ctx.control("C11/_affine_with_min_scale/control/scale_at_least_one", sc >= 1, hyp + pt[0].cond, props, fn=Q)
+    else:
+        ctx.oblige("C11/_affine_with_min_scale/struct/trained_unwraps", False, [], props, kind="applicability", fn=Q)
